@@ -25,7 +25,7 @@ claim('C02', 'Proof that ids returned by one consumer object strictly increase (
       'Payload bytes/data: C09.', '6-C02')
 claim('C03', 'Proof of the per-call clauses of the statement on the real Filter.process_frames, MQ.send and ZMQSender.send closures: None publishes nothing and consumes no id, '
       '{} is published as an empty set, a lone Frame becomes topic main, a callable result is evaluated exactly once, only inside send_maybe on an open gate, with no poll before '
-      'the publish; publish gate = required outputs tracked and every synchronized client requested; handshake on both sides (a new client is tracked only through a request without `new`; the real ZMQReceiver.recv.request says `new` exactly for sources not yet heard). The whole-history sequence equality (first sentence) is NOT decided.', '6-C03')
+      'the publish; publish gate = required outputs tracked and every synchronized client requested; handshake on both sides (a new client is tracked only through a request without `new`; the real ZMQReceiver.recv.request says `new` exactly for sources not yet heard). Modular proof of the whole ZMQSender.send: poll_recv from every SInv state (soak loop by the cut rule), send_maybe from every SInv state, and the real body of send over these two contracts: at most one publish per call, last, only after the drain, a state only after a publish or a discard, None only on a timeout. The whole-history sequence equality (first sentence) is NOT decided.', '6-C03')
 claim('C04', 'Proof on the real sender closures that a publish consumes the request mark of every synchronized client it includes, marks are set only by that client\'s requests, '
       'clients leave the table only by CLOSE or after ZMQ_CONN_TIMEOUT of silence; on the real receiver that at most one prefetch per source is sent per returned set; counting lemma: '
       'publishes to a stalled consumer <= requests it had sent + 1, independent of the stall length. The numeric single-digit bound is conditional on the delay assumption.', '6-C04')
